@@ -349,6 +349,19 @@ Section FrameThms.
     Proof. apply (Phi_eval_lstmt t fl call (@fr_ok P)) with (good_ctx := fun _ => True); fr_hyps. Qed.
     Lemma fr_lunscoped_add le name v mu : fr_ok P (lunscoped_add glob le name v mu).
     Proof. apply (Phi_lunscoped_add glob (@fr_ok P)); fr_hyps. Qed.
+    Lemma fr_lunscoped_set le name v : fr_ok P (lunscoped_set glob le name v).
+    Proof. apply (Phi_lunscoped_set glob (@fr_ok P)); fr_hyps. Qed.
+    Lemma fr_leager fuel le e : fr_ok P (leager t fl glob call fuel le e).
+    Proof. apply (Phi_leager t fl glob call (@fr_ok P)) with (good_ctx := fun _ => True); fr_hyps. Qed.
+    Lemma fr_ltest_cond fuel le c : fr_ok P (ltest_cond t fl glob call fuel le c).
+    Proof. apply (Phi_ltest_cond t fl glob call (@fr_ok P)) with (good_ctx := fun _ => True); fr_hyps. Qed.
+    Lemma fr_lpoll_n n l : fr_ok P (lpoll_n n l).
+    Proof. apply (Phi_lpoll_n (@fr_ok P)); fr_hyps. Qed.
+    Lemma fr_lpush_frame : fr_ok P lpush_frame. Proof. apply (Phi_lpush_frame (@fr_ok P)); fr_hyps. Qed.
+    Lemma fr_lpop_frame : fr_ok P lpop_frame. Proof. apply (Phi_lpop_frame (@fr_ok P)); fr_hyps. Qed.
+    Lemma fr_lclear_frame : fr_ok P lclear_frame. Proof. apply (Phi_lclear_frame (@fr_ok P)); fr_hyps. Qed.
+    Lemma fr_lift {A} (r : res A) : fr_ok P (lift r).
+    Proof. intros s p a s' p' H. apply lift_ok in H as (_ & -> & _). apply FrP_refl. exact P_refl. Qed.
     Lemma fr_iterM {X} (f : X -> M lstate unit) l : (forall x, fr_ok P (f x)) -> fr_ok P (iterM f l).
     Proof. intros H. induction l as [|x l IH]; cbn [iterM]; [apply fr_ret; assumption|]. eapply fr_bind; eauto. Qed.
     Lemma fr_mapM {X B} (f : X -> M lstate B) l : (forall x, fr_ok P (f x)) -> fr_ok P (mapM f l).
